@@ -312,7 +312,7 @@ def follow(p, t, base, q, k: Consts) -> dict:
         line = "GET " + path + ("?searchrequest=" + client_encode(q, k, True) if q else "") + " HTTP/1.0\r\n"
         return {"line": line, "rest": "\r\n", "tls": tls}
     if p == "M":
-        return {"line": "gemini://" + k.server_name + path + ("?" + client_encode(q, k, False) if q else "") + "\r\n",
+        return {"line": "gemini://" + k.server_name + path + ("?" + client_encode(q, k, False).replace("%2B", "+") if q else "") + "\r\n",     # = Links!QueryEncode
                 "rest": "", "tls": tls}
     if p == "S":
         return {"line": "%s %s %d\r\n" % (k.server_name, path, len(conc(q, k.hi_byte))), "rest": q, "tls": tls}
